@@ -37,7 +37,8 @@ Full statement / proved / missing
 * lazily built type caches (`Model/LazyCache.lean`): `C13_lazy_caches` — for a table of publication sites that satisfies
   `publishAfterInit` (the publishing write is the last write to the object) no reader, under any interleaving, observes a
   half-built type; the table regenerated from types/*.go does NOT satisfy it (`C13_publish_order_fails`, known finding
-  C13-type-cache-published-before-init) and the model built from that table exhibits the half-built answer
+  C13-type-cache-published-before-init) — but every site outside the five recorded functions does (`C13_publish_ok`:
+  all lazily initialised fields are found by shape, so a new "assign, then complete in place" breaks the obligation) and the model built from that table exhibits the half-built answer
   (`C13_cache_half_built`), as the implementation does under the same schedule.
 * file-based loading (`Model/InstantiateOnce.lean`: the lock-table / name-mutex / double-check protocol of
   `fileBasedLoader.instantiate`, including the deletion of the mutex from the table after unlocking):
@@ -271,6 +272,16 @@ theorem C13_lazy_caches (tbl : List CacheSite) (h : publishAfterInit tbl = true)
 
 /-- the code as it is does not follow the discipline (known finding C13-type-cache-published-before-init) … -/
 theorem C13_publish_order_fails : publishAfterInit Pcore.Generated.cacheSites = false := by decide
+
+/-- every OTHER lazily initialised field found in the anchored type and value files (StructType.hashedMembers, the
+    typedName caches, Hash.index, objectType.ctor …) is only ever assigned a complete value: the obligation a change like
+    "store the empty map, then fill it in place" breaks -/
+theorem C13_publish_ok : publishOKExcept knownPublishFirst Pcore.Generated.cacheSites = true := by decide
+
+-- the shape it rejects: the field assigned, the object completed afterwards (e.g. double-checked locking around a map
+-- that is published empty)
+example : publishOKExcept knownPublishFirst
+    (Pcore.Generated.cacheSites ++ [{ fn := "StructType.HashedMembers", field := "hashedMembers", publishLast := false }]) = false := by decide
 
 /-- … and a second reader does see the half-built type: thread 0 is parked right after publishing the reduced type of a
     one-element Array when thread 1 asks for it (the schedule `0 1` of the finding's first witness op) -/
